@@ -838,7 +838,9 @@ func vpGridCell(t *vcTrial, flavour int, state string, ev uint32, npre int) (hup
 	errFlag := ev&syscall.EPOLLERR != 0
 	if in && (state == "pending" || state == "pending+eof") {
 		// readable bytes are delivered before any hang-up for that descriptor
-		if hups == 1 && atomic.LoadUint64(&d.got) != sent && state == "pending+eof" && !errFlag {
+		// (with a hang-up flag set the handler drains to end-of-stream before anything else, so an ERR
+		// bit next to HUP|RDHUP changes nothing about that; ERR without a hang-up flag is left out)
+		if hups == 1 && atomic.LoadUint64(&d.got) != sent && state == "pending+eof" && (!errFlag || hupFlag) {
 			cause := "hang-up flags"
 			h := d.history()
 			for i, e := range h {
